@@ -65,7 +65,21 @@ def monitor(ck, cfg, xs):
     width_prev = 0
     tol = 1e-7
     t_upd = 0
+    cfg = dict(cfg)
     for i, v in enumerate(xs):
+        if isinstance(v, tuple) and v[0] == "set":
+            # a configuration field assigned through its public setter in mid-stream: the rules below use the new value
+            setattr(d.config, v[1], v[2])
+            cfg[v[1]] = v[2]
+            trace.append(DET.observe(d))
+            continue
+        if isinstance(v, tuple) and v[0] == "copy":
+            # continue on a deep copy / a pickle round trip of the detector: the copy must keep the exact window
+            import copy as _copy, pickle as _pickle
+
+            d = _copy.deepcopy(d) if v[1] == "deepcopy" else _pickle.loads(_pickle.dumps(d))
+            trace.append(DET.observe(d))
+            continue
         if v == "R":
             d.reset()
             seen, width_prev, t_upd = [], 0, 0
@@ -84,7 +98,7 @@ def monitor(ck, cfg, xs):
         trace.append(DET.observe(d))
         w = int(d.width)
         detail = dict(config=cfg, stream=xs[: i + 1], step=i, width=w, width_before=width_prev)
-        scale = max(1.0, max(abs(x) for x in xs if x != "R"))
+        scale = max(1.0, max(abs(x) for x in xs if not isinstance(x, (str, tuple))))
         # (a) exact suffix window
         if not (0 < w <= len(seen)):
             ck.violation(dict(clause="suffix-window"), dict(what="width out of range", **detail))
@@ -217,14 +231,53 @@ def run(ck: Check):
                 pos = rng.randrange(3, len(xs) - 2)
                 if xs[pos] != "R" and xs[pos - 1] != "R" and xs[pos + 1] != "R":
                     xs = xs[:pos] + ["R"] + xs[pos:]
+        special = False
+        if it >= len(corpus) and "R" not in xs and n > 40:
+            r2 = rng.random()
+            if r2 < 0.12:
+                pos = rng.randrange(10, len(xs) - 10)
+                xs = xs[:pos] + [("copy", rng.choice(["deepcopy", "pickle"]))] + xs[pos:]
+                special = True
+            elif r2 < 0.24:
+                pos = rng.randrange(10, len(xs) - 10)
+                field, val = rng.choice([("min_num_instances", rng.choice([1, 30, 90])), ("clock", rng.choice([1, 3, 8])), ("delta", rng.choice([0.002, 0.3])), ("min_window_size", rng.choice([1, 4]))])
+                xs = xs[:pos] + [("set", field, val)] + xs[pos:]
+                special = True
         trace, ok = monitor(ck, cfg, xs)
         nshrink = sum(1 for t in trace if t[0])
-        ck.case(dict(config=cfg, n=n, head=xs[:6], shrinks=nshrink, resets=xs.count("R")), nontrivial=nshrink > 0, key=repr((cfg, xs)))
+        ck.case(dict(config=cfg, n=n, head=xs[:6], shrinks=nshrink, resets=xs.count("R"), special=special), nontrivial=nshrink > 0, key=repr((cfg, xs)))
         ck.count("updates", len(trace))
         ck.count("shrinking_updates", nshrink)
-        if ok and len(xs) <= 220:
+        ck.count("histories_with_copy_or_setter", int(special))
+        if ok and len(xs) <= 220 and not special:
             cases.append((DET, cfg, xs, None))
             impl.append(trace)
+    # a very long window (rows 0..16 in use, sizes up to 2^16): width / total / variance against prefix sums
+    import numpy as _np
+
+    for mlong in ([1] if not thorough else [1, 5]):
+        nlong = 120000
+        cfgl = dict(clock=32, delta=0.002, m=mlong, min_window_size=5, min_num_instances=10)
+        nprng = _np.random.RandomState(rng.randrange(2**31))
+        xl = _np.abs(_np.concatenate([nprng.normal(0.3, 0.1, nlong - 15000), nprng.normal(0.6, 0.1, 15000)]))
+        c1, c2 = _np.concatenate([[0.0], _np.cumsum(xl)]), _np.concatenate([[0.0], _np.cumsum(xl * xl)])
+        dl = DET.make(cfgl)
+        bad = None
+        wprev = 0
+        for t, v in enumerate(xl, 1):
+            dl.update(value=float(v))
+            w = int(dl.width)
+            if w < wprev + 1 or t % 5000 == 0 or t == nlong:
+                sm = c1[t] - c1[t - w]
+                ssd = (c2[t] - c2[t - w]) - sm * sm / w
+                if not (abs(float(dl.total) - sm) <= 1e-6 * max(1.0, abs(sm)) and abs(float(dl.variance) - ssd) <= 1e-5 * max(1.0, abs(ssd))):
+                    bad = dict(step=t, width=w, total=float(dl.total), expected_total=float(sm), variance=float(dl.variance), expected_ssd=float(ssd))
+                    break
+            wprev = w
+        ck.case(dict(config=cfgl, n=nlong, kind="very-long-run"), nontrivial=True, key=repr(("long", cfgl)))
+        ck.count("very_long_run_steps", nlong)
+        if bad:
+            ck.violation(dict(clause="suffix-window", regime="very-long"), dict(what="after 10^5 values total / variance differ from the sum / SSD of the last `width` values (prefix sums)", config=cfgl, stream="|N(.3,.1)| x 105000 then |N(.6,.1)| x 15000 from the check's generator", **bad))
     models = run_models("C05", cases, shard=12)
     from detectors import corr_compare
 
